@@ -56,6 +56,8 @@ type instrumenter struct {
 	gates      int
 	pkgVars    map[string]bool
 	visibleOps bool
+
+	selectsOwned, selectsUnowned int
 }
 
 func (in *instrumenter) gateStmt(pos token.Pos) ast.Stmt {
@@ -154,12 +156,102 @@ func (in *instrumenter) rewriteList(list []ast.Stmt) []ast.Stmt {
 	out := make([]ast.Stmt, 0, len(list)*2)
 	for _, s := range list {
 		in.rewriteStmt(s)
-		if _, isLabeled := s.(*ast.LabeledStmt); !isLabeled && (in.every || (in.visibleOps && in.visible(s))) {
+		owned := false
+		if sel, ok := s.(*ast.SelectStmt); ok && (in.every || in.visibleOps) {
+			s = in.ownSelect(sel)
+			_, owned = s.(*ast.SwitchStmt) // verifChoose is a yield point itself
+		}
+		if _, isLabeled := s.(*ast.LabeledStmt); !isLabeled && !owned && (in.every || (in.visibleOps && in.visible(s))) {
 			out = append(out, in.gateStmt(s.Pos()))
 		}
 		out = append(out, s)
 	}
 	return out
+}
+
+// ownSelect hands the one nondeterministic choice a select statement makes —
+// which of several ready cases runs — to the scheduler.  A select with n >= 2
+// receive cases and no default becomes
+//
+//	switch verifChoose("file:line", n) {
+//	case k:  // case k has priority, then k+1, ... (cyclically); nobody ready: block on all
+//		select { <case k>; default: select { <case k+1>; default: ... select { <all cases> } } }
+//	default: // no scheduler installed
+//		<the original select>
+//	}
+//
+// Every behaviour of the rewritten statement is a behaviour of the original
+// (Go may pick any ready case) and for every set of ready cases each member can
+// be chosen.  Case bodies are shared between the copies (already instrumented).
+// Selects with a default clause, a send case or a single case are left alone
+// and counted in the summary (none in the pinned tree).
+func (in *instrumenter) ownSelect(sel *ast.SelectStmt) ast.Stmt {
+	var comms []*ast.CommClause
+	for _, cl := range sel.Body.List {
+		c := cl.(*ast.CommClause)
+		if c.Comm == nil {
+			in.selectsUnowned++
+			return sel
+		}
+		if _, isSend := c.Comm.(*ast.SendStmt); isSend {
+			in.selectsUnowned++
+			return sel
+		}
+		labeled := false
+		for _, b := range c.Body {
+			ast.Inspect(b, func(n ast.Node) bool {
+				if _, ok := n.(*ast.LabeledStmt); ok {
+					labeled = true
+				}
+				return !labeled
+			})
+		}
+		if labeled {
+			in.selectsUnowned++
+			return sel
+		}
+		comms = append(comms, c)
+	}
+	n := len(comms)
+	if n < 2 {
+		return sel
+	}
+	in.selectsOwned++
+	p := in.fset.Position(sel.Pos())
+	label := in.file + ":" + strconv.Itoa(p.Line)
+	full := func() *ast.SelectStmt {
+		list := make([]ast.Stmt, n)
+		for i, c := range comms {
+			list[i] = &ast.CommClause{Comm: c.Comm, Body: c.Body}
+		}
+		return &ast.SelectStmt{Body: &ast.BlockStmt{List: list}}
+	}
+	var cases []ast.Stmt
+	for k := 0; k < n; k++ {
+		inner := ast.Stmt(full())
+		for j := n - 1; j >= 0; j-- {
+			c := comms[(k+j)%n]
+			inner = &ast.SelectStmt{Body: &ast.BlockStmt{List: []ast.Stmt{
+				&ast.CommClause{Comm: c.Comm, Body: c.Body},
+				&ast.CommClause{Comm: nil, Body: []ast.Stmt{inner}},
+			}}}
+		}
+		cases = append(cases, &ast.CaseClause{
+			List: []ast.Expr{&ast.BasicLit{Kind: token.INT, Value: strconv.Itoa(k)}},
+			Body: []ast.Stmt{inner},
+		})
+	}
+	cases = append(cases, &ast.CaseClause{Body: []ast.Stmt{sel}})
+	return &ast.SwitchStmt{
+		Tag: &ast.CallExpr{
+			Fun: ast.NewIdent("verifChoose"),
+			Args: []ast.Expr{
+				&ast.BasicLit{Kind: token.STRING, Value: strconv.Quote(label)},
+				&ast.BasicLit{Kind: token.INT, Value: strconv.Itoa(n)},
+			},
+		},
+		Body: &ast.BlockStmt{List: cases},
+	}
 }
 
 // rewriteStmt descends into nested statement lists and function literals.
@@ -264,6 +356,7 @@ func main() {
 		}
 	}
 	total := 0
+	selOwned, selUnowned := 0, 0
 	perFile := map[string]int{}
 	for _, pf := range files {
 		in := &instrumenter{fset: fset, file: pf.name, pkgVars: pkgVars}
@@ -314,6 +407,8 @@ func main() {
 		replace[filepath.Join(*repo, pf.name)] = dst
 		total += in.gates
 		perFile[pf.name] = in.gates
+		selOwned += in.selectsOwned
+		selUnowned += in.selectsUnowned
 	}
 	copyShim := func(from, to string) {
 		data, err := os.ReadFile(filepath.Join(*shim, from))
@@ -341,10 +436,11 @@ func main() {
 	for _, n := range names {
 		fmt.Fprintf(&sb, "%s=%d ", n, perFile[n])
 	}
-	summary := map[string]any{"profile": *profile, "gates": total, "per_file": perFile, "files": len(files)}
+	summary := map[string]any{"profile": *profile, "gates": total, "per_file": perFile, "files": len(files),
+		"selects_owned": selOwned, "selects_unowned": selUnowned}
 	sdata, _ := json.Marshal(summary)
 	_ = os.WriteFile(filepath.Join(*out, "summary.json"), sdata, 0o644)
-	fmt.Printf("instr: profile=%s files=%d gates=%d\n", *profile, len(files), total)
+	fmt.Printf("instr: profile=%s files=%d gates=%d selects_owned=%d selects_unowned=%d\n", *profile, len(files), total, selOwned, selUnowned)
 }
 
 func fail(err error) {
